@@ -304,6 +304,7 @@ fn permute<T: Clone>(code: &[usize], xs: &[T]) -> Vec<T> {
 
 struct Net {
     client: Client,
+    network: Network,
     net_rx: mpsc::Receiver<NetworkSwarmCmd>,
     _local_rx: mpsc::Receiver<LocalSwarmCmd>,
 }
@@ -315,8 +316,8 @@ fn new_net() -> Net {
     seed[0] = 0x33;
     let kp = Keypair::ed25519_from_bytes(seed).expect("kp");
     let network = Network::new(net_tx, local_tx, PeerId::from(kp.public()), kp);
-    let client = Client::verif_new(network, EvmNetwork::ArbitrumOne);
-    Net { client, net_rx, _local_rx: local_rx }
+    let client = Client::verif_new(network.clone(), EvmNetwork::ArbitrumOne);
+    Net { client, network, net_rx, _local_rx: local_rx }
 }
 
 /// Run `fut` to completion; `answer(key, pending_keys)` decides per step which pending request to answer
@@ -521,6 +522,67 @@ fn exec(w: &World, rt: &tokio::runtime::Runtime, line: &str) -> String {
 // oracle: the property stated on the observable behaviour, from the descriptors only
 // ---------------------------------------------------------------------------------------------------------
 
+/// What the network layer hands to `get_vault_from_network` for this reply, observed on the real
+/// `Network::get_record_from_network` (same cfg as the vault read): one record, the entries of the split map when the
+/// split error reaches the caller, or nothing.
+fn handed_up(w: &World, rt: &tokio::runtime::Runtime, kn: u64, reply: &str) -> Vec<Vec<u8>> {
+    let rkey = vault_key(kn);
+    let Some(rep) = build_reply(w, reply, &rkey, kn) else { return vec![] };
+    let mut net = new_net();
+    let network = net.network.clone();
+    let cfg = ant_networking::GetRecordCfg {
+        get_quorum: libp2p::kad::Quorum::Majority,
+        retry_strategy: None,
+        target_record: None,
+        expected_holders: HashSet::new(),
+        is_register: false,
+    };
+    let mut rep = Some(rep);
+    let res = rt.block_on(drive(
+        network.get_record_from_network(rkey.clone(), &cfg),
+        &mut net.net_rx,
+        |_| 0,
+        |_| rep.take().unwrap_or(Err(GetRecordError::RecordNotFound)),
+    ));
+    match res {
+        Some(Ok(r)) => vec![r.value],
+        Some(Err(NetworkError::GetRecordError(GetRecordError::SplitRecord { result_map }))) => result_map.into_values().map(|(r, _)| r.value).collect(),
+        _ => vec![],
+    }
+}
+
+#[derive(serde::Deserialize)]
+#[allow(dead_code)]
+struct PadWire {
+    address: ScratchpadAddress,
+    data_encoding: u64,
+    encrypted_data: Bytes,
+    counter: u64,
+    signature: Option<bls::Signature>,
+}
+
+/// Independent authenticity check of a record value (plain msgpack + blsttc + sha3, none of scratchpad.rs):
+/// `Some((counter, "owner.counter.ver"))` iff the body is a scratchpad owned by key `kn` whose signature by that key
+/// covers (counter, hash of the encrypted data).
+fn authentic_version(value: &[u8], kn: u64) -> Option<(u64, String)> {
+    if value.len() <= 2 {
+        return None;
+    }
+    let p: PadWire = rmp_serde::from_slice(&value[2..]).ok()?;
+    let sk = bls_sk(kn);
+    if p.address.owner() != &sk.public_key() {
+        return None;
+    }
+    let mut signed = p.counter.to_be_bytes().to_vec();
+    signed.extend_from_slice(&sha3(&p.encrypted_data));
+    if !sk.public_key().verify(p.signature.as_ref()?, &signed) {
+        return None;
+    }
+    let plain = sk.decrypt(&bls::Ciphertext::from_bytes(&p.encrypted_data).ok()?)?;
+    let id = String::from_utf8(plain).ok()?.strip_prefix("pad-")?.replace('-', ".");
+    Some((p.counter, id))
+}
+
 struct PadD {
     owner: u64,
     ctr: u64,
@@ -552,7 +614,7 @@ fn pads_of_reply(reply: &str) -> Vec<PadD> {
     v
 }
 
-fn oracle(w: &World, line: &str, out_line: &str, out: &mut Out) {
+fn oracle(w: &World, rt: &tokio::runtime::Runtime, line: &str, out_line: &str, out: &mut Out) {
     let ws: Vec<&str> = line.split_whitespace().collect();
     if out_line == "panic" || out_line == "stuck" {
         out.oracle_fail("no-panic", line, &format!("client call ended with {out_line}"));
@@ -587,6 +649,30 @@ fn oracle(w: &World, line: &str, out_line: &str, out: &mut Out) {
         ["vault", key, reply] => {
             let key: u64 = key.parse().unwrap_or(99);
             let pads = pads_of_reply(reply);
+            // "unsigned or foreign versions are discarded": forged versions must not keep the authentic latest version
+            // from being returned. Stated over what the vault code is handed (see `handed_up`): when that contains a
+            // version owned by the requested key with a valid signature, the read returns the highest-counter such one.
+            // (Where the network layer's own split handling has already reduced the split to one foreign-owned pad,
+            // the vault code is handed no authentic version and nothing is demanded.)
+            if key < N_OWNERS {
+                let auth: Vec<(u64, String)> = handed_up(w, rt, key, reply).iter().filter_map(|v| authentic_version(v, key)).collect();
+                if let Some(best) = auth.iter().map(|a| a.0).max() {
+                    let ok = match out_line.strip_prefix("ok ") {
+                        Some(got) => auth.iter().any(|(c, id)| *c == best && id == got),
+                        None => false,
+                    };
+                    if !ok {
+                        let mut ids: Vec<String> = auth.iter().map(|a| a.1.clone()).collect();
+                        ids.sort();
+                        out.oracle_fail(
+                            "vault-discards-forged",
+                            line,
+                            &format!("the vault read was handed validly signed version(s) {ids:?} of key {key} (highest counter {best}) but gave `{out_line}`: forged or foreign versions must be discarded, not decide the outcome"),
+                        );
+                    }
+                    out.count("vault:authentic-handed-up");
+                }
+            }
             if let Some(got) = out_line.strip_prefix("ok ") {
                 let f: Vec<u64> = got.split('.').filter_map(|x| x.parse().ok()).collect();
                 if f.len() != 3 {
@@ -791,6 +877,14 @@ const CORPUS: &[&str] = &[
     "vault 0 sp=c:J,s:P1.9.v.1@own,s:P0.3.v.0@g0",
     "vault 0 sp=c:J,s:P0.4.v.1@v2,s:P0.3.v.0@own",
     "vault 2 sp=s:P0.7.v.0@own,s:P1.8.v.0@own",
+    // forged higher-counter versions next to an authentic one, in split maps that reach the vault code
+    "vault 0 sp=c:J,s:P0.3.v.0,s:P0.9.i.1",
+    "vault 0 sp=c:J,s:P0.3.v.0,s:P0.9.n.1",
+    "vault 0 sp=c:J,s:P0.3.v.0,s:P0.9.w.1",
+    "vault 0 sp=c:J,s:P0.9.n.1,s:P0.3.v.0,s:P0.4.v.1",
+    "vault 0 sp=o:P0.18446744073709551615.n.0,s:P0.3.v.0",
+    "vault 0 sp=x:J,o:P1.9.v.1,s:P0.3.v.0",
+    "vault 1 sp=c:g0,s:P1.2.v.0,s:P0.7.v.0,s:P1.8.i.2",
 ];
 
 fn main() {
@@ -820,7 +914,7 @@ fn main() {
             out.count(&format!("{op}:reply:{}", r.trim_start_matches("m=").split('=').next().unwrap_or("?")));
         }
         out.nontrivial_case(line);
-        oracle(&w, line, &res, &mut out);
+        oracle(&w, &rt, line, &res, &mut out);
         out.line(line.clone(), res);
     }
     out.notes.push(format!(
